@@ -249,6 +249,58 @@ def concrete_node_ty(S, n, depth=0, seen=None):
     return ty
 
 
+def _floor_multiple_of_own_len(fg, bk, b, operand, croots, roots):
+    def bin_def(o, ops):
+        """(a, b) of the single bin statement with one of `ops` that defines operand o (through moves / `.0` of a checked op)"""
+        cur = o
+        for _ in range(6):
+            if cur["k"] == "const":
+                return None
+            ds = defs_of(b, cur["p"]["l"])
+            if len(ds) != 1 or ds[0][1] == "t":
+                return None
+            r = ds[0][2]
+            if r["k"] == "use":
+                cur = r["o"]
+                continue
+            if r["k"] == "bin" and r["op"] in ops:
+                return r["a"], r["b"]
+            return None
+        return None
+
+    def const_of(o):
+        if o["k"] == "const":
+            return o.get("v")
+        ds = defs_of(b, o["p"]["l"]) if not o["p"]["pr"] else []
+        if len(ds) == 1 and ds[0][1] != "t" and ds[0][2]["k"] == "use" and ds[0][2]["o"]["k"] == "const":
+            return ds[0][2]["o"].get("v")
+        return None
+    m = bin_def(operand, ("Mul", "MulWithOverflow", "MulUnchecked"))
+    if not m:
+        return False
+    for x, c in (m, m[::-1]):
+        k1 = const_of(c)
+        if k1 is None or x["k"] == "const":
+            continue
+        d = bin_def(x, ("Div",))
+        if not d or const_of(d[1]) != k1 or d[0]["k"] == "const":
+            continue
+        # the dividend is len() of the same container
+        cur = d[0]
+        for _ in range(6):
+            ds = defs_of(b, cur["p"]["l"])
+            if len(ds) != 1:
+                return False
+            if ds[0][1] == "t":
+                cn = callee_names(ds[0][2])
+                return bool(cn) and cn[-1].rsplit("::", 1)[-1] == "len" and ds[0][2]["args"] and ds[0][2]["args"][0]["k"] != "const" and bool(roots(ds[0][2]["args"][0]) & croots)
+            if ds[0][2]["k"] == "use" and ds[0][2]["o"]["k"] != "const":
+                cur = ds[0][2]["o"]
+                continue
+            return False
+    return False
+
+
 def rule_peer_shaped_sinks(S, res):
     """R1.i / R1.iii: index / slice / unwrap on message components below the validated level."""
     fg = S.fg
@@ -310,6 +362,9 @@ def rule_peer_shaped_sinks(S, res):
                         croots = roots(t["args"][0])
                         own_len = any(ct["d"]["l"] in il and callee_names(ct) and callee_names(ct)[-1].rsplit("::", 1)[-1] == "len" and ct["args"] and ct["args"][0]["k"] != "const" and (roots(ct["args"][0]) & croots) for _c, ct in b.calls())
                         if has_min and own_len:
+                            ok = True
+                        # `v.split_at_mut(v.len() / K * K)`: the largest multiple of K below the vector's own length
+                        if not ok and _floor_multiple_of_own_len(fg, bk, b, t["args"][1], croots, roots):
                             ok = True
                     if ok:
                         n_guarded += 1
